@@ -21,8 +21,6 @@ def known_class(j, cat, text):
         return "KF-ALAC-ROUNDTRIP"
     if f.major in (0x01, 0x13) and f.codec == 0x20 and cat in ("frames", "eof", "snapshot"):
         return "KF-WAV-GSM-PAD"
-    if f.major == 0x0F and cat in ("partition", "frames", "eof", "stale"):
-        return "KF-XI-HEADER"
     if f.major == 0x08 and cat == "snapshot":
         return "KF-VOC-UPDATE"
     if f.major == 0x08 and f.codec in (0x10, 0x11) and j.ch == 1 and cat in ("frames", "eof"):
